@@ -24,7 +24,7 @@ PID = "C04"
 
 
 def shape_sig(td):
-    return tuple((k, tuple(v.shape[1:]), str(v.dtype)) for k, v in sorted(td.items()))
+    return E.group_sig(td)
 
 
 def band_excused(spec, inst, prefix, smask, bmask):
